@@ -2,5 +2,5 @@ package sim
 
 // OraclesFor returns every oracle; all run in every profile.
 func OraclesFor(c *Chain) []Oracle {
-	return []Oracle{NewOracleC03(), NewOracleC04(), NewOracleC05(), NewOracleC06(), NewOracleC07(), NewOracleC08(), NewOracleC09()}
+	return []Oracle{NewOracleC03(), NewOracleC04(), NewOracleC05(), NewOracleC06(), NewOracleC07(), NewOracleC08(), NewOracleC09(), NewOracleC10()}
 }
